@@ -282,6 +282,16 @@ class FnTyper:
                     for it in n.items:
                         if it.optional_vars is not None:
                             self.bind(it.optional_vars, self.etype(it.context_expr))
+                elif isinstance(n, ast.Expr) and isinstance(n.value, ast.Call) and isinstance(n.value.func, ast.Attribute) and isinstance(n.value.func.value, ast.Name) \
+                        and n.value.func.attr in ("append", "extend", "insert") and n.value.args:
+                    # L.append(x) / L.extend(xs): a list local grown in place holds what is put into it
+                    L_ = n.value.func.value.id
+                    a_ = n.value.args[-1]
+                    t = self.etype(a_)
+                    if n.value.func.attr == "extend":
+                        t = self.elem(t) if t else None
+                    if t is not None and L_ not in [p_.arg for p_ in params] and ("list", t) not in self.env[L_]:
+                        self.env[L_].append(("list", t))
 
     def elem(self, it):
         if it is None:
